@@ -206,6 +206,7 @@ func loadPools() *pools {
 	}
 	p.batches = append(p.batches, `{"batchHeader":{"id":"b`+strconv.Itoa(len(p.batches))+`"}}`) // decodes to nothing valid
 	p.batches = append(p.batches, `{nonsense`)
+	thePools = p
 	p.offsets = []string{
 		`{"routingNumber":"987654320","accountNumber":"123456","accountType":"checking","description":"OFFSET"}`,
 		`{"routingNumber":"121042882","accountNumber":"99","accountType":"savings","description":"OFF"}`,
@@ -828,11 +829,36 @@ func (r *request) line() string {
 	return "?"
 }
 
+var thePools *pools
+
+// body arguments of corpus lines may name a fixture instead of its pool index: @ppd-debit.ach
+func resolveNames(w []string) {
+	if thePools == nil {
+		return
+	}
+	for i, t := range w {
+		if !strings.HasPrefix(t, "@") {
+			continue
+		}
+		names := thePools.textN
+		if len(w) > 1 && w[1] == "J" {
+			names = thePools.jsonN
+		}
+		for k, n := range names {
+			if n == t[1:] {
+				w[i] = strconv.Itoa(k)
+				break
+			}
+		}
+	}
+}
+
 func parseRequest(line string) *request {
 	w := strings.Fields(line)
 	if len(w) == 0 {
 		return nil
 	}
+	resolveNames(w)
 	r := &request{kind: w[0]}
 	switch w[0] {
 	case "CREATE":
@@ -1073,6 +1099,8 @@ type genState struct {
 	// result of flatten/segment): balance mutates those shared records, which the
 	// per-object terms do not describe
 	related map[string]bool
+	flatSrc map[string]bool // sources of a flatten
+	flatRel map[string]bool // sources and results of a flatten
 }
 
 func classifyPools(p *pools) (tv, jv []int) {
@@ -1191,8 +1219,45 @@ func (g *genState) next(s *srv, allowBalance bool) *request {
 	}
 }
 
+// mark records the sharing that a successful flatten/segment creates
+func (g *genState) mark(q *request, before int, s *srv) {
+	if g == nil || (q.kind != "FLATTEN" && q.kind != "SEGMENT") || len(s.gens) == before {
+		return
+	}
+	g.related[q.id] = true
+	if q.kind == "FLATTEN" {
+		g.flatSrc[q.id] = true
+		g.flatRel[q.id] = true
+	}
+	for k := before; k < len(s.gens); k++ {
+		id := fmt.Sprintf("g%d", k)
+		g.related[id] = true
+		if q.kind == "FLATTEN" {
+			g.flatRel[id] = true
+		}
+	}
+}
+
+// admissible replaces requests that would rewrite records shared between a derived file and
+// its source by a GET of the same file (see docs/C17.md, "not modelled")
+func (g *genState) admissible(q *request) *request {
+	bad := false
+	switch q.kind {
+	case "FLATTEN", "SEGMENT", "BALANCE":
+		bad = g.related[q.id]
+	case "ADDBATCH", "DELBATCH":
+		bad = g.flatRel[q.id] // FlattenBatches shares the batch HEADERS: renumbering by Create depends on positions
+	case "CONTENTS", "BUILD":
+		bad = g.flatSrc[q.id]
+	}
+	if bad {
+		return &request{kind: "GET", id: q.id}
+	}
+	return q
+}
+
 func newGen(r *rng.R, p *pools, tv, jv []int) *genState {
-	g := &genState{r: r, p: p, valid: tv, jsonV: jv, related: map[string]bool{}}
+	g := &genState{r: r, p: p, valid: tv, jsonV: jv, related: map[string]bool{}, flatSrc: map[string]bool{}, flatRel: map[string]bool{}}
 	n := r.Range(1, 3)
 	for i := 1; i <= n; i++ {
 		g.ids = append(g.ids, fmt.Sprintf("c%d", i))
@@ -1217,12 +1282,7 @@ func corr(args []string) {
 	emit := func(s *srv, q *request) {
 		before := len(s.gens)
 		code, proj := s.run(q, false)
-		if g := curGen; g != nil && (q.kind == "FLATTEN" || q.kind == "SEGMENT") {
-			g.related[q.id] = true
-			for k := before; k < len(s.gens); k++ {
-				g.related[fmt.Sprintf("g%d", k)] = true
-			}
-		}
+		curGen.mark(q, before, s)
 		cases.Printf("%s\n", q.line())
 		raw.Printf("%d %s\n", code, proj)
 	}
@@ -1245,7 +1305,7 @@ func corr(args []string) {
 		raw.Printf("S\n")
 		steps := g.r.Range(4, 12)
 		for j := 0; j < steps; j++ {
-			emit(s, g.next(s, true))
+			emit(s, g.admissible(g.next(s, true)))
 		}
 	}
 	cases.Close()
@@ -1509,8 +1569,9 @@ func (o *orun) history(g *genState, lines []string, steps int) {
 		}
 		okA, _ := cmp(true)
 		if okA && st.cause[q.id] != "" {
-			o.fail("server:"+st.cause[q.id]+"-retabulates-stored-file",
-				fmt.Sprintf("%s %s after %s: %s; the answer equals the library's on the file re-tabulated by File.Create, which the %s endpoint ran on the stored object", q.kind, q.id, st.cause[q.id], whyI, st.cause[q.id]), hist)
+			o.fail("server:"+st.cause[q.id]+"-alters-stored-file",
+				fmt.Sprintf("%s %s after %s: %s; the answer equals the library's on the object as the %s endpoint left it (it runs File.Create%s on the stored object itself)", q.kind, q.id, st.cause[q.id], whyI, st.cause[q.id],
+					map[string]string{"contents": "", "flatten": " and FlattenBatches", "segment": " and SegmentFile", "failed-balance": ", WithOffset and Batch.Create"}[st.cause[q.id]]), hist)
 			st.ideal[q.id] = st.actual[q.id]
 			st.cause[q.id] = ""
 			return
@@ -1523,7 +1584,7 @@ func (o *orun) history(g *genState, lines []string, steps int) {
 	for j := 0; j < steps; j++ {
 		var q *request
 		if g != nil {
-			q = g.next(s, true)
+			q = g.admissible(g.next(s, true))
 		} else {
 			if j >= len(lines) {
 				break
@@ -1536,12 +1597,7 @@ func (o *orun) history(g *genState, lines []string, steps int) {
 		ngenBefore := len(s.gens)
 		code, proj := s.run(q, true)
 		hist = append(hist, q.line())
-		if g != nil && (q.kind == "FLATTEN" || q.kind == "SEGMENT") {
-			g.related[q.id] = true
-			for k := ngenBefore; k < len(s.gens); k++ {
-				g.related[fmt.Sprintf("g%d", k)] = true
-			}
-		}
+		g.mark(q, ngenBefore, s)
 		if code == 598 || code == 599 {
 			what := "the handler panicked"
 			if code == 598 {
@@ -1615,7 +1671,7 @@ func (o *orun) history(g *genState, lines []string, steps int) {
 							st.cause[id] = ""
 						}
 					}
-					o.fail("server:"+c+"-retabulates-stored-file", fmt.Sprintf("GET /files after %s: %s, the ideal store gives %s", c, proj, ob.proj), hist)
+					o.fail("server:"+c+"-alters-stored-file", fmt.Sprintf("GET /files after %s: %s, the ideal store gives %s", c, proj, ob.proj), hist)
 				} else {
 					o.fail("server:list:differs-from-library", fmt.Sprintf("GET /files: %d %s, expected %s", code, proj, ob.proj), hist)
 				}
@@ -1751,7 +1807,7 @@ func (o *orun) history(g *genState, lines []string, steps int) {
 				// the attempt ran File.Create and maybe more on the stored object
 				st.actual[q.id] = L("Balanced", tA, A(strconv.Itoa(q.k)), A(sym(0)))
 				if st.cause[q.id] == "" {
-					st.cause[q.id] = "balance"
+					st.cause[q.id] = "failed-balance"
 				}
 				continue
 			}
